@@ -150,3 +150,8 @@ pub fn control_r9_8_find(d: &mut Dev, bufs: &mut [[u8; 4]; 3]) -> bool {
         .find(|r| r.as_ref().map_or(false, |n| *n == 4))
         .is_some()
 }
+
+/// N8 control: a UTF-8 byte count compared with a UTF-16 unit count
+pub fn control_n8_units(name: &str, units: &[u16]) -> bool {
+    name.len() == units.len()
+}
